@@ -15,8 +15,9 @@ slices' clipping (`legacyObs`), the recorded `pinv`, `A`, `C`.  Driver op `ssi_l
 * `ssiEigArgs_legacy` — the matrix handed to `eig` for order `n` is the legacy `A` of order `n`.
 * `step ≥ 2`: `C01_step_indexError_fast`, `C01_step_indexError_legacy` — on the lists either routine
   builds with the SAME `step`, `ssiPoles` ends in `IndexError` as soon as `ordmax > step` (the lists hold
-  one entry per multiple of `step`, `SSI_poles` indexes them by order); kernel-checked witnesses, and
-  the boundary `ordmax = step`, where the call returns with the order-`step` poles in column 1.
+  one entry per multiple of `step`, `SSI_poles` indexes them by order); kernel-checked witnesses;
+  `C01_step_ok_only_boundary`: for `step ≥ 2` the call returns only if `ordmax = step` (or 0), and there
+  (`C01_step_column_mislabel`, `ExStep.step_boundary`) column 1 holds the poles of the order-`step` matrix.
 -/
 namespace PV.C01TableLegacy
 open PV PV.Mat PV.Cov PV.FreeVib PV.C11 PV.C01E2E PV.Poles PV.C01Table Matrix
@@ -236,6 +237,71 @@ theorem C01_step_never_ok_fast (Rinv : ℕ → Mat ℚ) (Q Obs : Mat ℚ) (l ord
   ssiPoles_step_never_ok _ hs ho
     (Or.inl (Nat.le_of_eq (fastLists_len_step Rinv Q Obs l ordmax step (by omega)).1)) T
 
+/-- **for `step ≥ 2` the call returns only at the boundary**: on lists with one entry per multiple of
+    `step`, `ssiPoles … = .ok T` forces `ordmax = step` or `ordmax = 0` (for `1 ≤ ordmax < step` the lists
+    have the single entry of order 0 and the first pass reads `AA[1]`). -/
+theorem C01_step_ok_only_boundary (inp : SsiIn) (hs : 2 ≤ inp.step)
+    (hlen : inp.AA.length ≤ inp.ordmax / inp.step + 1) (T : SsiTables) (hT : ssiPoles inp = .ok T) :
+    inp.ordmax = inp.step ∨ inp.ordmax = 0 := by
+  by_cases h1 : inp.step < inp.ordmax
+  · exact (ssiPoles_step_never_ok inp hs h1 (Or.inl hlen) T hT).elim
+  · by_cases h2 : inp.ordmax = inp.step
+    · exact Or.inl h2
+    · by_cases h3 : inp.ordmax = 0
+      · exact Or.inr h3
+      · exfalso
+        obtain ⟨_, _, _, _, hpass, _⟩ := ssiPoles_spec inp T hT
+        obtain ⟨A, _, hA, _⟩ := hpass 0 (by omega)
+        have hA' := (List.getElem?_eq_some_iff.mp hA).1
+        have : inp.ordmax / inp.step = 0 := Nat.div_eq_of_lt (by omega)
+        omega
+
+/-- **… and there the column is mislabelled**: whenever `ssiPoles` returns on the lists `fastLists` builds
+    with the same `step`, column 1 of `Fn` — read by every consumer of the table as "order 1" — holds
+    `|λ_c|/2π` of the first recorded eigen-decomposition, i.e. of `AA[1]`, which is the matrix of ORDER
+    `step`, and `Phi[:, 1, :]` is computed with the `l × step` output matrix `Obs[:l, :step]`. -/
+theorem C01_step_column_mislabel (Rinv : ℕ → Mat ℚ) (Q Obs : Mat ℚ) (l ordmax step : ℕ)
+    (hs : 1 ≤ step) (ho : 1 ≤ ordmax) (recs : List EigRec) (twoPi : ℚ) (T : SsiTables)
+    (hT : ssiPoles ⟨(fastLists Rinv Q Obs l ordmax step).1, (fastLists Rinv Q Obs l ordmax step).2, ordmax,
+      step, recs, twoPi, none⟩ = .ok T) :
+    step ≤ ordmax
+    ∧ (ssiEigArgs (fastLists Rinv Q Obs l ordmax step).1 ordmax step)[0]?
+        = some (some (fastA (Rinv 1) Q (dnPart Obs l) step))
+    ∧ (∀ r, T.fn.e r 1 = (ac2mp (outC Obs l step) (recs.getD 0 EigRec.empty) twoPi).fn[r]?)
+    ∧ ∀ r t, T.phi.e r 1 t
+        = if r < (ac2mp (outC Obs l step) (recs.getD 0 EigRec.empty) twoPi).fn.length
+          then (((ac2mp (outC Obs l step) (recs.getD 0 EigRec.empty) twoPi).phi.getD r [])[t]?).map toCQ
+          else none := by
+  obtain ⟨_, _, _, _, hpass, _⟩ := ssiPoles_spec _ T hT
+  obtain ⟨A', C', hA, hC, _, _, _, hfn, _, _, hphi, _⟩ := hpass 0 (by show 1 + 0 * step ≤ ordmax; omega)
+  have e1 : 1 + 0 * step = 1 := by omega
+  simp only [e1] at hA hC hfn hphi
+  have hlen := (List.getElem?_eq_some_iff.mp hC).1
+  rw [(fastLists_len_step Rinv Q Obs l ordmax step (by omega)).2] at hlen
+  have hso : step ≤ ordmax := by
+    by_contra hlt
+    have : ordmax / step = 0 := Nat.div_eq_of_lt (by omega)
+    omega
+  have hpos : 1 < (ordmax + 1 + step - 1) / step := by
+    have : ordmax + 1 + step - 1 = ordmax + step := by omega
+    rw [this, Nat.add_div_right _ (by omega)]
+    have : 1 ≤ ordmax / step := (Nat.le_div_iff_mul_le (by omega)).mpr (by omega)
+    omega
+  have hC1 : (fastLists Rinv Q Obs l ordmax step).2[1]? = some (outC Obs l step) := by
+    simp only [fastLists]
+    rw [List.getElem?_map, List.getElem?_range hpos, Option.map_some, Nat.one_mul]
+  have hA1 : (fastLists Rinv Q Obs l ordmax step).1[1]? = some (fastA (Rinv 1) Q (dnPart Obs l) step) := by
+    simp only [fastLists]
+    rw [List.getElem?_map, List.getElem?_range hpos, Option.map_some, Nat.one_mul]
+  have hCe : C' = outC Obs l step := by
+    have : some C' = some (outC Obs l step) := by rw [← hC]; exact hC1
+    exact Option.some.inj this
+  subst hCe
+  refine ⟨hso, ?_, hfn, hphi⟩
+  unfold ssiEigArgs
+  rw [List.getElem?_map, ssiOrders_get ordmax step (by omega) 0 (by omega), Option.map_some, e1]
+  exact congrArg some hA1
+
 /-! ## Non-vacuity: the instances of `C01E2E` (`Ex`: damped rotation, `cov_mm`; `ExDat`: undamped
 rotation, `dat`) with the recorded roots as a list, the pseudo-inverse recorded for order 2 and the two
 recorded eigen-decompositions of `C01Table` satisfy all hypotheses jointly. -/
@@ -348,6 +414,19 @@ theorem step_boundary : ∃ T, ssiPoles ⟨(fastLists (fun _ => Rinv) Q (obsOf U
     (fastLists (fun _ => Rinv) Q (obsOf U sq 2) Y.r 2 2).2, 2, 2, recs, 7, none⟩ = .ok T
     ∧ T.fn.c = 2 ∧ T.fn.e 0 1 = some (160 / 7) ∧ T.fn.e 1 1 = some (160 / 7) := by
   refine ⟨_, rfl, ?_, ?_, ?_⟩ <;> decide +kernel
+
+/-- non-vacuity of `C01_step_ok_only_boundary` and `C01_step_column_mislabel`: the boundary instance
+    satisfies their hypotheses (the call returns) -/
+example : ∃ T, ssiPoles ⟨(fastLists (fun _ => Rinv) Q (obsOf U sq 2) Y.r 2 2).1,
+    (fastLists (fun _ => Rinv) Q (obsOf U sq 2) Y.r 2 2).2, 2, 2, recs, 7, none⟩ = .ok T
+    ∧ ((2 : ℕ) = 2 ∨ (2 : ℕ) = 0)
+    ∧ ∀ r, T.fn.e r 1 = (ac2mp (outC (obsOf U sq 2) Y.r 2) (recs.getD 0 EigRec.empty) 7).fn[r]? := by
+  obtain ⟨T, hT, _⟩ := step_boundary
+  exact ⟨T, hT,
+    C01_step_ok_only_boundary _ (by decide)
+      (Nat.le_of_eq (fastLists_len_step (fun _ => Rinv) Q (obsOf U sq 2) Y.r 2 2 (by decide)).1) T hT,
+    (C01_step_column_mislabel (fun _ => Rinv) Q (obsOf U sq 2) Y.r 2 2 (by decide) (by decide) recs 7 T
+      hT).2.2.1⟩
 
 end ExStep
 
